@@ -285,6 +285,56 @@ fn judge_check(rep: &mut Report, kind: &str, api: &str, r: Result<Result<(), Str
     }
 }
 
+/// E: as many distinct asset ids among the inputs as `max_inputs` allows (the VM's balance
+/// table also holds the base asset)
+fn many_assets_case(cfg: &Cfg, worker: u64, idx: u64, rep: &mut Report) {
+    let mut rng = Rng::derive(cfg.seed ^ (0x29e << 32), worker, idx);
+    let params = ConsensusParameters::standard();
+    let max_inputs = params.tx_params().max_inputs() as usize;
+    let mut world = World::new(params, 0);
+    let n = match rng.below(4) {
+        0 => max_inputs,
+        1 => max_inputs - 1,
+        2 => max_inputs - 2,
+        _ => 1 + rng.usize_below(max_inputs),
+    };
+    let with_base = rng.bool();
+    world.assets.truncate(1);
+    for i in 0..n {
+        world.assets.push(fuel_types::AssetId::new(crate::refmodel::sha256(&[b"many", &(i as u64).to_be_bytes()])));
+    }
+    let code: Vec<u8> = fuel_asm::op::ret(fuel_asm::RegId::ONE).to_bytes().to_vec();
+    let mut spec = ScriptSpec { script: fuel_asm::op::ret(fuel_asm::RegId::ONE).to_bytes().to_vec(), gas_limit: 1000, max_fee: 0, ..Default::default() };
+    let first = if with_base { 0 } else { 1 };
+    for a in first..(first + n).min(world.assets.len()) {
+        spec.predicates.push((code.clone(), vec![], a, 10 + a as u64, 0));
+    }
+    let replay = json!({"kind": "many-assets", "seed": cfg.seed, "worker": worker, "index": idx, "inputs": spec.predicates.len(), "with_base_asset_input": with_base});
+    // estimate predicate gas, then check and execute
+    let tx = {
+        use fuel_tx::Finalizable;
+        let mut t = spec.builder(&world, idx).finalize();
+        let _ = t.estimate_predicates(&CheckPredicateParams::from(&world.params), MemoryInstance::new(), &fuel_vm::storage::predicate::EmptyStorage);
+        t
+    };
+    let ready = match guarded(|| tx.into_checked(world.height, &world.params).map_err(|e| format!("{e:?}")).and_then(|c| c.into_ready(0, world.gas_costs(), world.params.fee_params(), Some(world.height)).map_err(|e| format!("{e:?}")))) {
+        Ok(Ok(r)) => r,
+        Ok(Err(e)) => {
+            rep.count(&format!("many_assets_rejected_{}", e.chars().take(30).collect::<String>()));
+            return;
+        }
+        Err(p) => {
+            rep.violation(format!("C29|checking|host panic|{}", p.site()), p.text, || replay.clone());
+            return;
+        }
+    };
+    rep.eval();
+    let (out, _) = run_plain(&world, ready);
+    judge_outcome(rep, "many distinct input assets", &out, false, &replay);
+    rep.class(format!("many-assets|inputs={}|base_input={with_base}|{}", if spec.predicates.len() >= max_inputs - 1 { "near-max" } else { "below-max" }, out.state.is_ok()));
+    rep.count("many_assets_cases");
+}
+
 fn bus_part(cfg: &Cfg) -> Report {
     let opts = |idx: u64, _rng: &mut Rng| {
         let mut w = Weights::default();
@@ -311,7 +361,7 @@ fn bus_part(cfg: &Cfg) -> Report {
     drive(cfg, &d)
 }
 
-const PARTS: [&str; 4] = ["generated programs on the step bus", "random byte programs", "storage fault injection", "checking free-form transactions"];
+const PARTS: [&str; 5] = ["generated programs on the step bus", "random byte programs", "storage fault injection", "checking free-form transactions", "many distinct input assets"];
 
 /// one shard, run inside a child process (single thread); `cfg.threads` is the number of
 /// shards so that budgets are split
@@ -346,6 +396,13 @@ fn run_shard(cfg: &Cfg, shards: u64, from_part: u64, from_idx: u64) -> Report {
             checking_case(cfg, 0, i, &mut rep);
         }
     }
+    let ne = cfg.budget(160, 8000) / shards;
+    if from_part <= 4 {
+        for i in start(4)..ne.max(2) {
+            crate::progress(4, i);
+            many_assets_case(cfg, 0, i, &mut rep);
+        }
+    }
     rep
 }
 
@@ -363,6 +420,7 @@ pub fn run(cfg: &Cfg) -> Report {
         match c["kind"].as_str() {
             Some("random-bytes") => random_bytes_case(&c2, w, i, &mut rep),
             Some("checking") => checking_case(&c2, w, i, &mut rep),
+            Some("many-assets") => many_assets_case(&c2, w, i, &mut rep),
             Some("abort") => {
                 // re-run the case that killed a child (in-process: a crash reproduces it)
                 match c["part"].as_u64().unwrap_or(0) {
@@ -373,7 +431,8 @@ pub fn run(cfg: &Cfg) -> Report {
                     }
                     1 => random_bytes_case(&c2, 0, i, &mut rep),
                     2 => fault_case(&c2, 0, i, &mut rep),
-                    _ => checking_case(&c2, 0, i, &mut rep),
+                    3 => checking_case(&c2, 0, i, &mut rep),
+                    _ => many_assets_case(&c2, 0, i, &mut rep),
                 }
                 rep.note("the recorded case was re-run in-process without crashing");
             }
@@ -448,7 +507,7 @@ pub fn run(cfg: &Cfg) -> Report {
                 format!("signal {sig:?}")
             };
             rep.violation(
-                format!("C29|host process aborted|{kind}|{}", PARTS[part.min(3) as usize]),
+                format!("C29|host process aborted|{kind}|{}", PARTS[part.min(4) as usize]),
                 format!("child worker killed (status {:?}) while executing case part={part} index={idx} seed={seed}: {tail}", o.status),
                 || json!({"kind": "abort", "part": part, "seed": seed, "worker": 0, "index": idx}),
             );
